@@ -103,9 +103,15 @@ def forcing_file_names(sc) -> list[str]:
     return [f"forcing_{k:03d}.nc" for k in range(nfiles)]
 
 
-def time_units(sc):
-    """unit and reference time of ocean_time in the forcing files (seconds or whole hours)"""
+def time_units(sc, file_index: int = 0):
+    """unit and reference time of ocean_time in a forcing file (seconds, whole hours or float days);
+    'time_units_per_file' gives every file its own (files of several model runs chained together)"""
     tu = sc["frames"].get("time_units", "epoch")
+    per = sc["frames"].get("time_units_per_file")
+    if per:
+        tu = per[file_index % len(per)]
+    if tu.startswith("back"):       # seconds since a reference that many minutes before 2000-01-01
+        return "seconds", np.datetime64("2000-01-01T00:00:00", "s") - np.timedelta64(int(tu[4:]) * 60, "s")
     if tu == "epoch":
         return "seconds", truth.EPOCH
     if tu == "y2000":
@@ -156,7 +162,7 @@ def write_forcing_file(path: Path, sc, frames: list[int], times=None, file_index
             if pk:   # value = add_offset + scale_factor * stored, exactly the float32 ground truth
                 svars[name].scale_factor = np.float32(0.0625)
                 svars[name].add_offset = np.float32(truth.scalar_offset(name))
-        unit, tref = time_units(sc)
+        unit, tref = time_units(sc, file_index)
         tv.units = f"{unit} since {str(tref).replace('T', ' ')}"
         per = {"seconds": 1, "hours": 3600, "days": 86400}[unit]
         for n, f in enumerate(frames):
